@@ -1,5 +1,7 @@
 import Driver.Json
 import Model.Pass.Synth
+import Model.Lib.Ops
+import Model.Lib.Barrel
 /-! `basic` command: the Lean models of the bit-level generators on concrete operands. -/
 open Lean
 namespace Pyrtl.Drv
@@ -22,5 +24,40 @@ def cmdBasic (j : Json) : Except String Json := do
   let width := (outs.headD []).length
   return Json.mkObj [("ok", .bool true), ("width", natJson width),
                      ("vals", .arr (outs.map fun o => natJson (toNat o)).toArray)]
+
+end Pyrtl.Drv
+
+namespace Pyrtl.Drv
+open Pyrtl.Ops
+
+/-- `ops` command: the Lean impl models of operators/helpers on concrete `(width, value)` operands.
+    Request: fn, wa, wb, k (constant parameter), cases [[a, b], ...]; reply: width and values. -/
+def cmdOps (j : Lean.Json) : Except String Lean.Json := do
+  let fn ← jStr (← field j "fn")
+  let wa ← jNat (← field j "wa")
+  let wb ← jNat (← field j "wb")
+  let k ← jNat (fieldD j "k" (natJson 0))
+  let cases ← jPairList (← field j "cases")
+  let bitsOf (w v : Nat) : List Bool := Pyrtl.Synth.ofNat w v
+  let f : Sig → Sig → Except String Sig := fun a b =>
+    match fn with
+    | "add" => pure (twoVarOp .add a b) | "sub" => pure (twoVarOp .sub a b) | "mul" => pure (twoVarOp .mul a b)
+    | "and" => pure (twoVarOp .and a b) | "or" => pure (twoVarOp .or a b) | "xor" => pure (twoVarOp .xor a b)
+    | "nand" => pure (twoVarOp .nand a b)
+    | "lt" => pure (twoVarOp .lt a b) | "gt" => pure (twoVarOp .gt a b) | "eq" => pure (twoVarOp .eq a b)
+    | "le" => pure (inv (twoVarOp .gt a b)) | "ge" => pure (inv (twoVarOp .lt a b))
+    | "ne" => pure (inv (twoVarOp .eq a b))
+    | "inv" => pure (inv a)
+    | "zext" => pure (zeroExtended a (a.1 + k)) | "sext" => pure (signExtended a (a.1 + k))
+    | "signed_add" => pure (signedAdd a b) | "signed_mult" => pure (signedMult a b)
+    | "signed_lt" => pure (1, signedLt a b)
+    | "shl_const" => pure (shiftLeftConst a k) | "shr_const" => pure (shiftRightConst a k)
+    | "shl" => pure (a.1, Pyrtl.Synth.toNat (Pyrtl.Barrel.barrelShifter (bitsOf a.1 a.2) false true (bitsOf b.1 b.2)))
+    | "shr" => pure (a.1, Pyrtl.Synth.toNat (Pyrtl.Barrel.barrelShifter (bitsOf a.1 a.2) false false (bitsOf b.1 b.2)))
+    | "sra" => pure (a.1, Pyrtl.Synth.toNat (Pyrtl.Barrel.barrelShifter (bitsOf a.1 a.2) (msb a == 1) false (bitsOf b.1 b.2)))
+    | _ => throw s!"unknown op fn {fn}"
+  let outs ← cases.mapM fun (a, b) => f (wa, a) (wb, b)
+  return Lean.Json.mkObj [("ok", .bool true), ("width", natJson ((outs.headD (0, 0)).1)),
+                          ("vals", .arr (outs.map fun o => natJson o.2).toArray)]
 
 end Pyrtl.Drv
